@@ -51,6 +51,8 @@ class _Solver:
         self.nchecks = 0
         self.nsat = self.nunsat = self.nunknown = 0
         self.time = 0.0
+        self.samples = []        # (z3 verdict, SMT-LIB2 text) of a few queries, re-checked with cvc5 by the driver
+        self.sample_every = 0
 
     def reset(self):
         self.s = self.z3.Solver()
@@ -80,6 +82,11 @@ class _Solver:
             self.s.push()
             self.s.add(T.to_z3(extra))
         r = self.s.check()
+        if self.sample_every and self.nchecks % self.sample_every == 0 and len(self.samples) < 4 and r != z3.unknown:
+            try:
+                self.samples.append(('sat' if r == z3.sat else 'unsat', self.s.to_smt2()))
+            except Exception:
+                pass
         m = None
         if r == z3.sat:
             self.nsat += 1
